@@ -263,6 +263,8 @@ def main(tier):
                      {'cc': 'gcc', 'cflags': ('-O1',), 'drv_args': (2 if tier == 'quick' else 3, secs), 'timeout': secs + 60, 'w2c2_args': ('-d', dmode)}))
     jobs.append(('padded-memarg', padded_memarg_batch(), {'cc': 'gcc', 'cflags': ('-O1',), 'timeout': 900}))
     jobs.append(('huge-static-offsets', huge_offset_batch(), {'cc': 'gcc', 'cflags': ('-O1',), 'timeout': 900}))
+    # plain `char` unsigned (ARM, PowerPC, s390 ABIs): the sign-extending 8-bit loads must not depend on it
+    jobs.append(('flavours -funsigned-char', flavour_batch(), {'cc': 'gcc', 'cflags': ('-O1', '-funsigned-char'), 'timeout': 900}))
     # the pretty-printed output format (-p): every load/store flavour, the memarg encodings and one history exploration again
     jobs.append(('flavours -p', flavour_batch(), {'cflags': ('-O0',), 'timeout': 900, 'w2c2_args': ('-p',)}))
     jobs.append(('padded-memarg -p', padded_memarg_batch(), {'cc': 'gcc', 'cflags': ('-O1',), 'timeout': 900, 'w2c2_args': ('-p',)}))
